@@ -177,7 +177,7 @@ theorem afterCloseHandshake_tCloseHs (s : S) (a : Bool) (h : s.tCloseHs = none) 
     (afterCloseHandshake s a).1.tCloseHs = none := by
   unfold afterCloseHandshake
   split
-  · unfold dropConnection; split <;> simp [S.emit, h]
+  · unfold dropConnection flushQueue; split <;> (try split) <;> simp [S.emit, h]
   · split
     · simp [armServerDrop, S.timer, h]
     · exact h
@@ -286,8 +286,8 @@ theorem connectionLost_cancels (s : S) (h : s.lost = false) :
     (connectionLost s).tPingNext = none ∧ (connectionLost s).tOpenHs = none := by
   unfold connectionLost
   rw [if_neg (by simp [h])]
-  unfold reportClose markClosed cancelOnLost
-  split <;> split <;> (try split) <;> simp [S.emit]
+  unfold reportClose unsentUnclean markClosed cancelOnLost
+  split <;> split <;> (try split) <;> (try split) <;> simp [S.emit]
 
 /-- a matching pong cancels the pong deadline -/
 theorem pong_cancels_pingTimeout (s : S) (p : Bytes) (h : s.pingPending = some p) :
